@@ -225,15 +225,11 @@ def fieldDefault (E : Ext) (C : CExt) (us : List CUnion) (t : IrTy) (lit : Lit) 
       | .tagref _ => ccrash "TypeError"
     match coerced with
     | .error e => .error e
-    | .ok x => match check E C us t (.flt x) with
-      | .error e => .error e
-      | .ok _ => .ok (.flt x)
+    | .ok x => (check E C us t (.flt x)).map fun _ => .flt x
   | _ =>
     -- `_populate_field_defaults`: an alias of a nullable type is nullable too (refused like the literal `T?`)
     if (unwrapAliases t).isNullableLit then invalid "Field cannot be a nullable type and have a default specified"
-    else match check E C us t lit with
-    | .error e => .error e
-    | .ok _ => .ok lit
+    else (check E C us t lit).map fun _ => lit
 
 /-- The compile-time check alone (the task's `checkDefault`). -/
 def checkDefault (E : Ext) (C : CExt) (us : List CUnion) (t : IrTy) (lit : Lit) : CR Unit :=
